@@ -51,14 +51,14 @@ Print Assumptions C01_roundtrip_exact.
    Hypotheses, all of them guards of the Rust types or of the property's own wording:
    - opts_ok o        : 2 <= block_size <= 65535 and 1 <= items_per_slot <= 65535 (the node and
                         section item counts are u16 fields);
-   (No hypothesis on the zoom options: since /repo adc453b both writers keep at most
+   (No hypothesis on the zoom options: since /repo 3a3ac98 both writers keep at most
     MAX_ZOOM_LEVELS = 10 levels, so write_info's directory stays inside the reserved 304 bytes;
     before that repair the proof needed "at most 10 levels" as a hypothesis - see notes/C01.md.)
    - input_ok sizes inp : chromosome names contain no zero byte (the key is zero padded and the
                         reader trims zeros) and are shorter than 2^32; fewer than 65536 chromosomes
                         (the chromosome tree is one leaf block with a u16 count); chromosome lengths
                         and value bit patterns are < 2^32 (u32 / f32).  "One run per chromosome" is
-                        no longer a hypothesis: since /repo 6b10d42 a chromosome whose run reappears
+                        no longer a hypothesis: since /repo 4ea85d7 a chromosome whose run reappears
                         is refused, so acceptance implies it (C01_accepted_one_run_per_chromosome);
    - Nlen bs < 2^64   : file offsets are u64.
    [infl] (the decompressor) is arbitrary: the modelled writer emits uncompressed files
@@ -223,7 +223,7 @@ Print Assumptions C01_zero_length_boundary_refuted.
 
 (* The split-chromosome input (chromosome "a" comes back after "b", order check off) used to be
    accepted and to lose a:[20,30) on read (finding F2, confirmed on the real code); since /repo
-   6b10d42 both writers refuse it *)
+   4ea85d7 both writers refuse it *)
 Definition split_opts : opts :=
   {| o_compress := false; o_ips := 2; o_bs := 2; o_izoom := 10; o_maxzooms := 2; o_manual := None; o_sort_all := false |}.
 Definition split_inp : list item :=
